@@ -153,7 +153,10 @@ def reaching_values(fn: ast.AST, name: str, at: ast.stmt, cfg=None) -> List[Opti
         if nid is None:
             out.append(v)
             continue
-        others = {i for i, _ in ids if i is not None and i != nid}
+        others = {i for i, _ in ids if i is not None and i != nid and i != target}     # the use in `x = f(x)` precedes that definition
+        if nid == target:
+            # `x = f(x)` reaches its own right-hand side only around a loop
+            start = [s for s, _ in cfg.succ[nid]]
         start = [s for s, _ in cfg.succ[nid]]
         if any(s == target or cfg.path(s, target, skip=others, skip_edges=("exc",)) is not None for s in start if s not in others):
             out.append(v)
